@@ -114,7 +114,7 @@ func installHook() {
 // ---------------------------------------------------------------------------
 
 type bstep struct {
-	K  string `json:"k"` // pin | unpin | arm | pause | settle
+	K  string `json:"k"` // pin | unpin | arm | armread | pause | settle
 	C  string `json:"c,omitempty"`
 	V  string `json:"v,omitempty"`
 	N  int    `json:"n,omitempty"`
@@ -200,6 +200,10 @@ func runBatchScript(s *bscript, seed int64, tf *traceFile, res *hx.Result) {
 			rc.emit("armcall", "n", st.N)
 			r.store.Arm(st.N)
 			rc.emit("armret")
+		case "armread":
+			rc.emit("rarmcall", "n", st.N)
+			r.store.ArmRead(st.N)
+			rc.emit("rarmret")
 		case "pause":
 			time.Sleep(time.Duration(st.Ms) * time.Millisecond)
 		case "settle":
@@ -222,6 +226,9 @@ func runBatchScript(s *bscript, seed int64, tf *traceFile, res *hx.Result) {
 					break
 				}
 				wait *= 2
+			}
+			if n := r.store.DisarmRead(); n > 0 {
+				rc.emit("rdisarm", "n", n) // State().List() below reads the same namespace
 			}
 			pins, err := r.pins()
 			if err != nil {
